@@ -88,3 +88,26 @@ Fixpoint html_decode_from (l : list Z) (skip : nat) : list Z :=
       end
   end.
 Definition html_decode (l : list Z) : list Z := html_decode_from l 0.
+
+(* ---- what the attribute escapers are documented to return ------------------------------------------ *)
+(* every occurrence of the quote q replaced by its reference *)
+Definition esc_flat (q : Z) (ent l : list Z) : list Z := flat_map (fun c => if c =? q then ent else [c]) l.
+Fixpoint count (q : Z) (l : list Z) : Z :=
+  match l with [] => 0 | c :: t => (if c =? q then 1 else 0) + count q t end.
+Definition ent_of (q : Z) : list Z := if q =? 34 then ent_dq else ent_sq.
+
+(* bytes that force quoting in HTML: whitespace, both quotes, backtick, less-than, equals, greater-than *)
+Definition char7 (c : Z) : bool :=
+  ws5 c || (c =? 34) || (c =? 39) || (c =? 60) || (c =? 61) || (c =? 62) || (c =? 96).
+Definition plain (v : list Z) : bool := forallb (fun c => negb (char7 c)) v.
+
+(* the cheaper quote; on a tie the original quote, double by default *)
+Definition html_quote (v : list Z) (oq : Z) : Z :=
+  if (count 39 v <? count 34 v) || ((count 39 v =? count 34 v) && (oq =? 39)) then 39 else 34.
+Definition quoted (q : Z) (v : list Z) : list Z := q :: esc_flat q (ent_of q) v ++ [q].
+Definition html_expected (v : list Z) (oq : Z) (mq : bool) : list Z :=
+  if plain v && (negb mq || (oq =? 0)) then v else quoted (html_quote v oq) v.
+Definition xml_quote (v : list Z) : Z := if count 39 v <? count 34 v then 39 else 34.
+
+(* attribute value normalisation of the xml lexer: literal TAB/LF/CR inside quotes become a space *)
+Definition xnorm (c : Z) : Z := if (c =? 9) || (c =? 10) || (c =? 13) then 32 else c.
